@@ -18,7 +18,7 @@ RULE = ("configurations = serial-number model tags (quick: one per predicate-equ
 ASSUMPTIONS = ["an inverter refuses a read iff it touches a refused register range (address-range semantics of real firmware)",
                "which optional blocks a model offers is derived by the oracle from the tag lists of goodwe.model (data) and the "
                "thresholds stated in the property (15 kW / 25 kW)"]
-MUST = ["battery_toggle_checked", "configs_run", "keys_equal_checked", "fallback_battery", "fallback_battery2", "fallback_meter_ext2", "fallback_meter_ext",
+MUST = ["firmware_version_variants", "battery_toggle_checked", "configs_run", "keys_equal_checked", "fallback_battery", "fallback_battery2", "fallback_meter_ext2", "fallback_meter_ext",
         "fallback_mppt", "first_call_failed_second_ok", "presence_checked", "dt_meter_refused", "es_configs", "slow_refusals_keepalive"]
 EXHAUSTIVE = {"quick": False, "thorough": True}
 
@@ -48,7 +48,7 @@ def check_config(cfg, part, port=8899, slow=False):
     part.count("configs_run")
     fam = cfg["family"]
     case = {"config": cfg, "port": port, "slow": slow}
-    tag = f"{fam} {cfg['tag']} rated={cfg['rated']} refused={cfg['refused']} battery={cfg['battery']}" + \
+    tag = f"{fam} {cfg['tag']} rated={cfg['rated']} refused={cfg['refused']} battery={cfg['battery']} fw={cfg.get('fw_versions')}" + \
         (" (inverter refuses 1.2 timeouts late, keep-alive on, retries 2)" if slow else "")
     if run.stop or run.error is not None:
         part.violate(f"C15/{fam}/setup-failed", f"{tag}: {run.stop or repr(run.error)}", case)
@@ -113,7 +113,13 @@ def run_shard(spec):
     part = Part()
     tier = spec["tier"]
     allc = list(configs.et_configs(g, tier)) + list(configs.dt_configs(g, tier)) + list(configs.es_configs(g, tier))
+    fwv = configs.firmware_variants()          # firmware dimension: each configuration runs with one (DSP1, DSP2, ARM) version triple
     for i, cfg in enumerate(allc):
+        if cfg["family"] in ("ET", "DT"):
+            cfg = dict(cfg, fw_versions=fwv[(i * 5 + env.seed()) % len(fwv)])
+            if cfg["fw_versions"] is not None:
+                part.count("firmware_version_variants")
+
         if i % spec["shards"] != spec["shard"]:
             continue
         check_config(cfg, part, 8899)
